@@ -53,6 +53,10 @@ CHECKS = {
             "Views-never-raise + engine-still-runs monitors on real gateways (file-sourced, fed through the real transport's receive function, and a port gateway on a fake serial port with sending enabled) over packet histories derived from the recorded logs by deletion, duplication, windowed reordering, splicing with other systems' / HVAC / binding logs and field mutation inside the schema regexes (extreme values), eavesdropping on/off: every public view of the gateway and of each device/system/zone/DHW is read every k-th packet; get_state() and _restore_cached_packets() (own snapshot, corrupted snapshot, restored twice, cancelled half-way) are invoked at seeded points and - returned or raised - must leave the engine as found (not paused, same handler, same read-only and discovery flags), a marker packet put on the wire afterwards must be handled end-to-end and a command must reach the serial port; after foreign traffic the known controller must still be a system, keep its zones and report a fresh zone temperature.",
             "Histories are re-timed to increasing unique timestamps; the marker is a 30C9 from a thermostat id no log uses; exceptions reaching the loop handler from deferred entity handlers are recorded, not judged; the port gateway runs with the library's own duty-cycle debug switch on (C11's subject).",
             "views-never-raise / engine-state / marker-packet monitors over mutated real histories", "§3 C13"),
+    "C16": ("exploration",
+            "Snapshot fix-point monitor: a real gateway (port stack on a fake serial port under one virtual clock, incl. two frames in one serial read; file stack) is fed histories derived from the recorded logs (delete/duplicate/reorder/splice/mutate); at seeded prefixes and at the end a snapshot is taken with include_expired on/off. Content monitor: every snapshot line is accepted by Packet.from_dict + Message(), is no RQ, no W other than 0404 and (unless asked for) not expired on the gateway's own clock. Fix-point monitor: a fresh Gateway built the way a restarting application does it (Gateway(**schema) + start(cached_packets)) must give back the identical packet dict and, eavesdropping off, the identical schema. Idempotence monitor: restoring the same snapshot again into the fresh gateway and into the original changes neither.",
+            "Timestamps are unique and increasing (a real receiver stamps on arrival); the schema clause is judged on the port stack with eavesdropping off (a fresh file gateway has no clock of its own); each stick's own start-up signature packet is excluded; one recorded finding (313F kept although expired, deliberate).",
+            "differential fix-point / idempotence monitor on snapshot -> fresh gateway -> snapshot, plus per-line content monitor", "§3 C16"),
     "C19": ("exploration",
             "Reference-model monitor: a simulated controller log (unique increasing timestamps, up to 64 deep) drives the real FaultLog inside a real Evohome of a real Gateway through the dispatcher with real I|0418 / RP|0418 packets built as text; after every step the public views are compared with the model (strictly newest-first, no entry at two positions, no invented/altered entry, views never raise; equality with the controller's log after an uninterrupted read-through; push-down by one on an unsolicited announcement). A second part runs the real get_faultlog() of a port gateway against the simulated controller (start/limit variations, null-entry replies).",
             "Equality is demanded only after a read-through with nothing changing meanwhile; RP null entries carry no index (documented), so feed-only read-throughs end at the last real entry; one recorded finding (gap-absorbing announcement, pinned by the repo's own test).",
